@@ -33,6 +33,17 @@ ADDERS = ('push', 'insert', '__setitem__', '__setitem_with_op__')
 D = Decimal
 
 
+def snapshot(c):
+    """the slots of a container with the objects themselves (kept alive, so that their addresses cannot be handed to replacements) and the lengths of nested containers"""
+    items = list(c.items()) if isinstance(c, dict) else list(enumerate(c))
+    return [(k, v, len(v) if isinstance(v, (list, dict)) else None) for k, v in items]
+
+
+def unchanged(c, snap):
+    items = list(c.items()) if isinstance(c, dict) else list(enumerate(c))
+    return len(items) == len(snap) and all(k == k0 and v is v0 and (len(v) if isinstance(v, (list, dict)) else None) == n0 for (k, v), (k0, v0, n0) in zip(items, snap))
+
+
 class Watch:
     def __init__(self, ctx):
         self.ctx = ctx
@@ -56,7 +67,7 @@ class Watch:
             snap = None
             if n0 >= CAP - 2:
                 W.big_seen = True
-                snap = list(map(id, c)) if isinstance(c, list) else [(k, id(v)) for k, v in c.items()]
+                snap = snapshot(c)
             try:
                 r = orig(*args, **kw)
             except BaseException as e:
@@ -64,8 +75,7 @@ class Watch:
                     raise           # the harness's own per-case deadline passing through: nothing to judge
                 if snap is not None:
                     ctx.count('adder_calls_near_cap')
-                    now = list(map(id, c)) if isinstance(c, list) else [(k, id(v)) for k, v in c.items()]
-                    if now != snap:
+                    if not unchanged(c, snap):
                         ctx.violation('%s raised but left the container changed' % name, W.case,
                                       detail={'src': W.src, 'len_before': n0, 'len_after': len(c), 'error': type(e).__name__})
                     elif n0 >= CAP:
@@ -80,8 +90,7 @@ class Watch:
                 if len(c) > n0 and n0 >= CAP:
                     ctx.violation('%s made a container of %d elements longer (%d)' % (name, n0, len(c)), W.case, detail={'src': W.src, 'args': repr(args[1:])[:80]})
                 elif n0 >= CAP:
-                    now = list(map(id, c)) if isinstance(c, list) else [(k, id(v)) for k, v in c.items()]
-                    if now == snap:
+                    if unchanged(c, snap):
                         ctx.count('adder_noop_at_cap')
                     else:
                         # succeeded at the cap without growth: an overwrite; the statement says the operation fails
